@@ -164,6 +164,18 @@ def run(res, tier):
                 mode = case['mode']
                 try:
                     kp = sg.build_top(case['chain'], regressor=Recorder())
+                    if cid % 5 in (1, 2):
+                        # history: the same pipeline object was fitted before on data of the same width with another
+                        # layout (other number of inputs / no episode feature)
+                        try:
+                            alt_nu = case['nu'] - 1 if case['nu'] > 0 else case['nu'] + 1
+                            if cid % 5 == 1 and case['ns'] + case['nu'] - alt_nu >= 1:
+                                kp.fit(case['X'], n_inputs=alt_nu, episode_feature=case['ep'])
+                            else:
+                                kp.fit_transformers(case['X'], n_inputs=case['nu'], episode_feature=not case['ep'])
+                            dist['refit_with_other_layout'] = dist.get('refit_with_other_layout', 0) + 1
+                        except Exception:  # noqa
+                            pass
                     kp.fit(case['X'], n_inputs=case['nu'], episode_feature=case['ep'])
                 except ValueError:
                     continue
